@@ -7,6 +7,7 @@ package c24
 // It never judges: the rows are validated by TLC against specs/ErrorTableTrace.tla.
 
 import (
+	"bytes"
 	"context"
 	"encoding/json"
 	"errors"
@@ -113,7 +114,63 @@ func (b *lb) UpdateSubConnState(balancer.SubConn, balancer.SubConnState) {}
 func (b *lb) Close()                                                      {}
 func (b *lb) ExitIdle()                                                   {}
 
+// ---- compressors failing at a chosen point ------------------------------------------------
+//
+// All are identity "compressions".  c24zc / c24zw / c24zx fail at Compress() / Write() / Close() (the
+// message never leaves the client).  c24z works, except that Decompress() fails when the payload starts
+// with "FAILD" and the reader it returns fails when the payload starts with "FAILR" (the server answers
+// with such a payload, so only the client's receive side fails).
+
+type zComp struct{ name, failAt string }
+
+func (z zComp) Name() string { return z.name }
+func (z zComp) Compress(w io.Writer) (io.WriteCloser, error) {
+	if z.failAt == "compress" {
+		return nil, errors.New("c24: Compress fails")
+	}
+	return zWriter{w, z.failAt}, nil
+}
+func (z zComp) Decompress(r io.Reader) (io.Reader, error) {
+	b, err := io.ReadAll(r)
+	if err != nil {
+		return nil, err
+	}
+	switch {
+	case bytes.HasPrefix(b, []byte("FAILD")):
+		return nil, errors.New("c24: Decompress fails")
+	case bytes.HasPrefix(b, []byte("FAILR")):
+		return zBadReader{}, nil
+	}
+	return bytes.NewReader(b), nil
+}
+
+type zWriter struct {
+	w      io.Writer
+	failAt string
+}
+
+func (z zWriter) Write(p []byte) (int, error) {
+	if z.failAt == "write" {
+		return 0, errors.New("c24: compressor Write fails")
+	}
+	return z.w.Write(p)
+}
+func (z zWriter) Close() error {
+	if z.failAt == "close" {
+		return errors.New("c24: compressor Close fails")
+	}
+	return nil
+}
+
+type zBadReader struct{}
+
+func (zBadReader) Read([]byte) (int, error) { return 0, errors.New("c24: decompressing reader fails") }
+
 func init() {
+	encoding.RegisterCompressor(zComp{"c24zc", "compress"})
+	encoding.RegisterCompressor(zComp{"c24zw", "write"})
+	encoding.RegisterCompressor(zComp{"c24zx", "close"})
+	encoding.RegisterCompressor(zComp{"c24z", ""})
 	balancer.Register(lbBuilder{})
 	encoding.RegisterCodec(rawCodec{})
 }
@@ -195,7 +252,7 @@ func runCase(id int, k kase) (row map[string]any) {
 	}()
 	var inj error
 	switch k.Src {
-	case "context", "transport", "retry_server":
+	case "context", "transport", "retry_server", "compressor":
 	case "retry_picker":
 		inj = errors.New("c24: no backend") // fail-fast RPC: UNAVAILABLE, retryable
 	default:
@@ -206,6 +263,16 @@ func runCase(id int, k kase) (row map[string]any) {
 		switch {
 		case k.Src == "retry_server":
 			return status.Error(codes.Unavailable, "c24: retry me") // trailers-only, retryable
+		case k.Src == "compressor" && (k.Kind.K == "decompress" || k.Kind.K == "read"):
+			var in []byte
+			if err := ss.RecvMsg(&in); err != nil {
+				return err
+			}
+			out := []byte("FAILD response")
+			if k.Kind.K == "read" {
+				out = []byte("FAILR response")
+			}
+			return ss.SendMsg(&out)
 		case k.Src == "handler":
 			var in []byte
 			ss.RecvMsg(&in)
@@ -265,6 +332,12 @@ func runCase(id int, k kase) (row map[string]any) {
 		copts = append(copts, grpc.PerRPCCredentials(errCreds{inj}))
 	case "dialer":
 		dialer = func(context.Context, string) (net.Conn, error) { return nil, inj }
+	case "compressor":
+		name := map[string]string{"compress": "c24zc", "write": "c24zw", "close": "c24zx"}[k.Kind.K]
+		if name == "" {
+			name = "c24z"
+		}
+		copts = append(copts, grpc.UseCompressor(name))
 	case "marshal":
 		codec.marshalErr = inj
 	case "unmarshal":
